@@ -100,7 +100,8 @@ class Result:
         self.next_pc = None       # z3 BV64
         self.undef_regs = {}      # full reg name -> z3 Bool (undefined when)
         self.intrinsic = False
-        self.accessed = []        # (addr64, nbytes) for replay window constraints
+        self.accessed = []        # (addr64, nbytes, guard) for replay window constraints
+        self.classes = None       # partition of pre-states used to identify findings
 
 
 class Unsupported(Exception):
@@ -127,16 +128,25 @@ def spec(mode, d, getvar, mem, address, length):
     mn = d["mn"]
     ops = d.get("ops", [])
 
+    ea_cache = {}
+
+    def ea_of(op):
+        # the effective address is computed once, from the pre-instruction register values
+        k = id(op)
+        if k not in ea_cache:
+            ea_cache[k] = st.ea(op[1], next_ip)
+        return ea_cache[k]
+
     def rd(op, size=None):
         if op[0] == "reg": return st.get_reg(op[1])
         if op[0] == "imm": return bv(op[1], op[2])
-        a = st.ea(op[1], next_ip)
+        a = ea_of(op)
         r.accessed.append((a, op[1]["size"] // 8, True))
         return st.load(a, op[1]["size"])
 
-    def wr(op, val):
+    def wr(op, val, late_ea=False):
         if op[0] == "reg": st.set_reg(op[1], val); return
-        a = st.ea(op[1], next_ip)
+        a = st.ea(op[1], next_ip) if late_ea else ea_of(op)
         r.accessed.append((a, val.size() // 8, True))
         st.store(a, val)
 
@@ -187,6 +197,8 @@ def spec(mode, d, getvar, mem, address, length):
     if mn in ("add", "adc", "sub", "sbb", "cmp", "and", "or", "xor", "test"):
         a_op, b_op = ops
         a = rd(a_op); b = sx(rd(b_op), a.size())
+        if mn in ("adc", "sbb"):
+            r.classes = {"cf_in=0": st.flag("CF") == 0, "cf_in=1": st.flag("CF") == 1}
         if mn in ("add", "adc"):
             cin = st.flag("CF") if mn == "adc" else bv(0, 1)
             res = a + b + z3.ZeroExt(a.size() - 1, cin)
@@ -284,6 +296,9 @@ def spec(mode, d, getvar, mem, address, length):
         m = cnt8 & bv(0x3f if s == 64 else 0x1f, 8)
         c = z3.ZeroExt(s - 8, m) if s > 8 else m
         zero = (m == 0)
+        mk = 0x3f if s == 64 else 0x1f
+        r.classes = {"count=0": cnt8 == 0, "count=1": cnt8 == 1, "1<count<width": z3.And(z3.UGT(cnt8, 1), z3.ULT(cnt8, s)),
+                     "width<=count<=mask": z3.And(z3.UGE(cnt8, s), z3.ULE(cnt8, mk)), "count>mask": z3.UGT(cnt8, mk)}
         if mn in ("shl", "shr", "sar"):
             if mn == "shl":
                 res = z3.If(z3.UGE(c, s), bv(0, s), a << c)
@@ -324,9 +339,13 @@ def spec(mode, d, getvar, mem, address, length):
     elif mn in ("shld", "shrd"):
         a = rd(ops[0]); b = rd(ops[1]); s = a.size()
         cnt = rd(ops[2]); cnt = z3.Extract(7, 0, cnt) if cnt.size() > 8 else cnt
+        cnt8 = cnt
         m = cnt & bv(0x3f if s == 64 else 0x1f, 8)
         c = z3.ZeroExt(2 * s - 8, m)
         zero = (m == 0)
+        mk = 0x3f if s == 64 else 0x1f
+        r.classes = {"count=0": cnt8 == 0, "count=1": cnt8 == 1, "1<count<width": z3.And(z3.UGT(cnt8, 1), z3.ULT(cnt8, s)),
+                     "width<=count<=mask": z3.And(z3.UGE(cnt8, s), z3.ULE(cnt8, mk)), "count>mask": z3.UGT(cnt8, mk)}
         r.assume.append(z3.ULE(m, s))   # count > operand size: result undefined (16-bit forms)
         if mn == "shld":
             wide = z3.Concat(a, b) << c
@@ -346,6 +365,8 @@ def spec(mode, d, getvar, mem, address, length):
     elif mn in ("bt", "bts", "btr", "btc"):
         s = opsize(ops[0])
         off = rd(ops[1])
+        r.classes = {"offset<width": z3.ULT(off, s) if s < (1 << off.size()) else z3.BoolVal(True),
+                     "offset>=width": z3.UGE(off, s) if s < (1 << off.size()) else z3.BoolVal(False)}
         if ops[0][0] == "mem" and ops[1][0] == "reg":
             # bit string addressing: byte address = ea + (offset >> 3) signed; use operand-size chunks
             o = off
@@ -403,16 +424,25 @@ def spec(mode, d, getvar, mem, address, length):
         res = acc - a
         sub_flags(acc, a, bv(0, 1), res)
         eq = acc == a
-        wr(ops[0], z3.If(eq, src, a))
-        # accumulator is written only when not equal (a 32-bit write zero-extends in 64-bit mode)
-        before = st.full(full_reg(accn, W))
+        r.classes = {"equal": eq, "not-equal": z3.Not(eq)}
+        # destination: written with src when equal; otherwise left alone (a 32-bit register
+        # destination is not zero-extended then - confirmed on the host CPU)
+        if ops[0][0] == "reg":
+            fn = full_reg(ops[0][1], W)
+            before = st.full(fn)
+            st.set_reg(ops[0][1], src)
+            st.regs[fn] = z3.If(eq, st.regs[fn], before)
+        else:
+            wr(ops[0], z3.If(eq, src, a))
+        fa = full_reg(accn, W)
+        before = st.full(fa)
         st.set_reg(accn, a)
-        after = st.regs[full_reg(accn, W)]
-        st.regs[full_reg(accn, W)] = z3.If(eq, before, after)
+        st.regs[fa] = z3.If(eq, before, st.regs[fa])
     elif mn == "setcc":
         wr(ops[0], z3.ZeroExt(7, b1(cond_of(st, d["cc"]))))
     elif mn == "cmovcc":
         c = cond_of(st, d["cc"])
+        r.classes = {"taken": c, "not-taken": z3.Not(c)}
         a = rd(ops[0]); b = rd(ops[1])
         wr(ops[0], z3.If(c, b, a))        # 32-bit form zero-extends even when not moved
     elif mn == "jcc":
@@ -437,6 +467,8 @@ def spec(mode, d, getvar, mem, address, length):
         else:
             r.next_pc = bv((next_ip + d["rel"]) & ((1 << W) - 1), 64)
     elif mn == "call":
+        if ops and ops[0][0] == "reg" and full_reg(ops[0][1], W) == sp_name():
+            r.classes = {"target=stack-pointer": z3.BoolVal(True)}
         if ops:
             t = rd(ops[0])
             push(bv(next_ip, W))
@@ -450,6 +482,10 @@ def spec(mode, d, getvar, mem, address, length):
             st.regs[sp_name()] = st.full(sp_name()) + bv(ops[0][1], W)
         r.next_pc = to_pc(t)
     elif mn == "push":
+        if ops[0][0] == "reg" and full_reg(ops[0][1], W) == sp_name():
+            r.classes = {"operand=stack-pointer": z3.BoolVal(True)}
+        elif opsize(ops[0]) == 16:
+            r.classes = {"16-bit operand": z3.BoolVal(True)}
         v = rd(ops[0])
         s = v.size()
         if ops[0][0] == "imm":
@@ -463,7 +499,7 @@ def spec(mode, d, getvar, mem, address, length):
         s = opsize(ops[0])
         if s not in (16, W): raise Unsupported("pop size")
         v = pop(s)
-        wr(ops[0], v)       # memory destination address is computed after rsp is incremented
+        wr(ops[0], v, late_ea=True)       # memory destination address is computed after rsp is incremented
     elif mn == "leave":
         bp = "rbp" if W == 64 else "ebp"
         st.regs[sp_name()] = st.full(bp)
@@ -533,6 +569,7 @@ def spec(mode, d, getvar, mem, address, length):
         else:
             # bounded unrolling: count register assumed <= K
             r.assume.append(z3.ULE(st.full(cx), bv(K, W)))
+            r.classes = {"count=0": st.full(cx) == 0, "count>0": st.full(cx) != 0}
             active = z3.BoolVal(True)
             for i in range(K):
                 going = z3.And(active, st.full(cx) != 0)
